@@ -41,7 +41,11 @@ RULE = (
     "of every run (90 pipeline cases, 70% of them with at least one scaler, and 30 kernel-only cases in the quick tier) where ONE "
     "pipeline object - or one set of transformer objects and one decision maker chained by hand - evaluates all the presentations "
     "one after the other (order of the presentations varied; something is always re-listed), so that anything an object keeps "
-    "from the first problem it saw shows as a difference between presentations. Both presentations run on the real code and are compared by label: scores within 1e-9*scale, ranks only "
+    "from the first problem it saw shows as a difference between presentations. A further fixed share of every run (every method of "
+    "ELECTRE2, ELECTRE1, MultiMOORA, TOPSIS, WSM on every size of 63, 64, 65, 127, 128, 129, 33, 100 alternatives in the "
+    "quick tier, ELECTRE2 four times each: 64 cases) are LONG kernel-only problems with whole-number scores 1..9 (1..5) on 3-6 criteria and equal or few distinct weights (ELECTRE2 with demanding thresholds, which keep the outranking graphs of a long problem sparse and its ranking "
+    "non-trivial), whose alternatives are re-listed (reversed, rotated, last one first, last one swapped with another, shuffled, the tail past "
+    "the last block of 2^k first) so that the last-listed alternative is never last in the second writing. Both presentations run on the real code and are compared by label: scores within 1e-9*scale, ranks only "
     "through the pairwise relation on pairs whose first-presentation scores differ by more than 2e-9*scale, ELECTRE1 kernel exactly "
     "when no concordance / discordance value is within the margin of a threshold. Non-trivial: the second presentation differs "
     "from the first (non-identity permutation or renaming) or c != 1."
@@ -458,6 +462,128 @@ def make_case(rng, kind, max_m=11, force=None, share=False):
     }
 
 
+# ----------------------------------------------------------------------------- long problems
+# Numbers of alternatives around the block sizes an implementation may process at a time (a power of two, one less, one more;
+# 33 and 100 for good measure) and the methods evaluated on them.  Every (method, size) pair is part of EVERY run.
+LONG_SIZES = [63, 64, 65, 127, 128, 129, 33, 100]
+LONG_METHODS = ["ELECTRE2", "ELECTRE1", "MultiMOORA", "TOPSIS", "WSM"]
+# how the alternatives are re-listed: the alternative listed LAST in the first writing is never listed last in the second one
+LONG_SIGMAS = ["reverse", "rotate", "last-to-front", "swap-last", "shuffle", "shuffle", "tail-first"]
+
+
+def _long_sigma(rng, m, how):
+    """P2 lists alternative sigma[r] in row r; sigma[m-1] != m-1 always (the last-listed alternative moves elsewhere)"""
+    ident = list(range(m))
+    if how == "reverse":
+        return ident[::-1]
+    if how == "rotate":
+        r = rng.randint(1, m - 1)
+        return ident[r:] + ident[:r]
+    if how == "last-to-front":
+        return [m - 1] + ident[:-1]
+    if how == "swap-last":  # only two alternatives change place: the last one and another one
+        k = rng.randrange(m - 1)
+        ident[k], ident[m - 1] = ident[m - 1], ident[k]
+        return ident
+    if how == "tail-first":  # the alternatives past the last whole block of 2^k (or the last few) are listed first
+        cut = max(b for b in (1, 2, 4, 8, 16, 32, 64, 128) if b < m) if rng.random() < 0.6 else m - rng.randint(1, 5)
+        return ident[cut:] + ident[:cut]
+    while True:
+        rng.shuffle(ident)
+        if ident[m - 1] != m - 1:
+            return ident
+
+
+def _long_names(rng, m, avoid=()):
+    """m distinct names whose sorted order has nothing to do with the order of listing"""
+    style = rng.choice(["alt%03d", "A%d", "x%d", "N%04d"])
+    out = [style % k for k in rng.sample(range(4 * m), m)]
+    return out if not set(out) & set(avoid) else ["n_" + x for x in out]
+
+
+def _sixteenths(rng, n, equalish):
+    """n positive weights that are whole sixteenths and sum to one: as equal as sixteenths allow, or two / three levels"""
+    if equalish:
+        parts = [16 // n + (1 if j < 16 % n else 0) for j in range(n)]
+    else:
+        while True:
+            parts = [rng.choice([1, 2, 4]) for _ in range(n)]
+            if sum(parts) <= 16:
+                break
+        parts[rng.randrange(n)] += 16 - sum(parts)
+    rng.shuffle(parts)
+    return [p / 16 for p in parts]
+
+
+# ELECTRE2 thresholds for long problems (all whole eighths: exact against concordance values that are whole sixteenths)
+LONG_E2_THRESHOLDS = [
+    {},  # the defaults 0.65 / 0.5 / 0.35, 0.65 / 0.35
+    {"p0": 0.875, "p1": 0.75, "p2": 0.5, "q0": 0.5, "q1": 0.25},
+    {"p0": 0.75, "p1": 0.625, "p2": 0.5, "q0": 0.375, "q1": 0.25},
+    {"p0": 1.0, "p1": 0.875, "p2": 0.625, "q0": 0.25, "q1": 0.125},
+]
+
+
+def _demanding_e2(rng):
+    p0 = rng.choice([6, 7, 8])
+    p1 = rng.randint(5, p0)
+    p2 = rng.randint(3, p1)
+    q0 = rng.randint(1, 4)
+    q1 = rng.randint(0, q0)
+    return {"p0": p0 / 8, "p1": p1 / 8, "p2": p2 / 8, "q0": q0 / 8, "q1": q1 / 8}
+
+
+def make_long_case(rng, name, m):
+    """a LONG problem (m alternatives) with discrete, heavily tied scores: whole numbers 1..9 (or 1..5) on 3-6 criteria, equal or
+    few distinct weights, kernel only; the alternatives are re-listed so that the last-listed one moves (and, in some cases, the
+    criteria too).  Such data give many pairs that outrank / tie each other, so a kernel that handles the alternatives block by
+    block, or the last alternative apart from the others, depends on the listing here and nowhere in the short problems."""
+    n = rng.randint(3, 6)
+    top = rng.choice([9, 9, 9, 5])
+    if name == "ELECTRE2":
+        # with a hundred alternatives almost everybody is outranked by somebody unless the thresholds are demanding: under
+        # permissive ones the distillation stops at once and all the alternatives share one rank (nothing to compare).  Demanding
+        # thresholds keep the strong / weak graphs sparse: 3-12 ranks, and single arcs of the graphs decide who is ranked where
+        spec = {"name": name, **rng.choice(LONG_E2_THRESHOLDS + [_demanding_e2(rng), _demanding_e2(rng)])}
+        if len(spec) == 1:  # the default thresholds separate long problems only on five and more criteria with a wide scale
+            n, top = rng.randint(5, 6), 9
+    elif name == "ELECTRE1":
+        spec = rng.choice([{"name": name}, {"name": name, "p": rng.choice([5, 6, 7, 8]) / 8, "q": rng.choice([0, 1, 2, 3, 4]) / 8}])
+    elif name == "TOPSIS":
+        spec = M.random_spec(rng, [name])
+    else:
+        spec = {"name": name}
+    objs = [1] * n if (name == "WSM" or rng.random() < 0.5) else G.objectives(rng, n, "mixed")
+    A = [[float(rng.randint(1, top)) for _ in range(n)] for _ in range(m)]
+    family = "dyadic"
+    if name in ("ELECTRE1", "ELECTRE2") or rng.random() < 0.5:
+        wts = _sixteenths(rng, n, equalish=rng.random() < 0.6)  # exact: every concordance value / weight sum is decided
+    elif rng.random() < 0.6:
+        wts, family = [1.0 / n] * n, ("dyadic" if n == 4 else "float")  # equal weights
+    else:
+        wts = [rng.choice([0.5, 1.0, 2.0]) for _ in range(n)]
+    alts = _long_names(rng, m)
+    dm = {"matrix": A, "int_matrix": rng.random() < 0.5, "objectives": objs, "weights": wts, "alternatives": alts,
+          "criteria": G.labels(rng, G.LABEL_POOL_CRIT, n), "family": family}
+    how = rng.choice(LONG_SIGMAS)
+    mode = rng.choice(["rows", "rows", "all"])
+    if mode == "all":
+        alts2 = rng.choice([lambda: rng.sample(alts, m), lambda: _long_names(rng, m, avoid=alts)])()
+        crits2 = _relabel(rng, dm["criteria"], G.LABEL_POOL_CRIT)
+    else:
+        alts2, crits2 = list(alts), list(dm["criteria"])
+    ckind, c = _multiplier(rng)
+    shared = {"share": "method", "order": list(rng.choice(EVAL_ORDERS))} if rng.random() < 0.25 else {}
+    return {
+        **shared,
+        "kind": "kernel", "spec": spec, "steps": [], "dm": dm, "mode": mode,
+        "via": rng.choice(SELECTIONS) if rng.random() < 1 / 3 else "mkdm",
+        "sigma": _long_sigma(rng, m, how), "tau": _perm(rng, n, identity=mode == "rows"),
+        "alts2": alts2, "crits2": crits2, "c": c, "c_kind": ckind,
+        "gen_tags": ["long", "long:m=%d" % m, "long-sigma:" + how],
+    }
+
+
 def gen(ctx):
     rng = ctx.rng
     cases = []
@@ -479,6 +605,12 @@ def gen(ctx):
         cases.append(make_case(rng, "pipeline", share=True))
     for _ in range(ctx.n(30, 400)):
         cases.append(make_case(rng, "kernel", share=True))
+    # ... and LONG problems, every method of LONG_METHODS on every size of LONG_SIZES (see make_long_case)
+    for _ in range(ctx.n(1, 5)):
+        for name in LONG_METHODS:
+            for m in LONG_SIZES:
+                for _ in range(4 if name == "ELECTRE2" else 1):  # the one method here that is a loop over pairs and rounds
+                    cases.append(make_long_case(rng, name, m))
     return cases
 
 
@@ -796,6 +928,8 @@ def _electre_decided(case, p1, p2, amp):
                 if not math.isfinite(v):
                     return False, "nonfinite"
                 for t in ths:
+                    if abs(v - t) > 2 * mar:  # certainly outside the margin (a correctly rounded difference): skip the exact test
+                        continue
                     gap = abs(C.F(v) - C.F(t))
                     if gap <= mar and not (exact and gap == 0):
                         return False, "near-threshold"
@@ -929,12 +1063,16 @@ def judge(case, obs, replies):
         sc = (max(scales[key], scales3.get(key, 0.0)) if scaled else scales[key]) * amp
         margin = C.F(2e-9 * sc)
         s = [C.F(x) for x in p1[key]]
+        fl, mf = p1[key], float(margin)
         for i in range(m):
             for k in range(i + 1, m):
-                if abs(s[i] - s[k]) <= margin:
+                # the float difference is correctly rounded: beyond twice the margin it is certainly beyond the margin, and the
+                # exact test (the only one that decides) is needed for the closer pairs only -- long problems have m^2 / 2 pairs
+                d = abs(fl[i] - fl[k])
+                if not d > 2 * mf and abs(s[i] - s[k]) <= margin:
                     tg.append("near-tie-pair-skipped")
                     continue
-                if scaled and abs(s[i] - s[k]) <= 500000 * margin:
+                if scaled and d <= 1000000 * mf and abs(s[i] - s[k]) <= 500000 * margin:
                     tg.append("scaled:close-pair-compared")  # distinct scores, relative gap below 1e-3
                 a, b = _sgn(r1[i] - r1[k]), _sgn(rb[idx[i]] - rb[idx[k]])
                 if a != b:
@@ -1077,6 +1215,9 @@ def tags(case, obs):
     if len(set(rows)) < len(rows):
         t.append("duplicated-rows")
     t.extend(case.get("gen_tags", []))
+    if "long" in case.get("gen_tags", []) and isinstance(obs.get("p1"), dict) and "rank" in obs["p1"]:
+        k = len(set(obs["p1"]["rank"]))
+        t.append("long:%s:distinct-ranks:%s" % (name, k if k < 3 else "3+"))
     if name in HOMOGENEOUS:
         e = abs(math.log2(case["c"]))
         t.append("log2|c|:" + ("<=5" if e <= 5 else "5-25" if e <= 25 else ">25"))
